@@ -456,6 +456,8 @@ def replay(case):
 
 def roots_for(alpha, seed, small):
     out = []
+    if alpha == "allpairs":     # 1345 operations per state: three representative roots only
+        return [{"name": "%s:L%d" % (alpha, Ln), "alpha": alpha, "L": Ln, "bystander": False, "renew": False, "seed": seed} for Ln in (0, 5, 6)]
     for Ln in (0, 1, 4, 5, 6):
         for by in (False, True):
             if small and by and Ln not in (0, 5):
